@@ -144,6 +144,43 @@ func c07Spaces(quick bool) []struct {
 	}
 }
 
+// c07ManyModes: specifications with k modes (default included): the default
+// mode pushes mode i on its own letter; mode i has its own token for 'a', goes
+// on to mode i+1 on 'n' and pops on 'z'. Mode names come in three orders
+// relative to declaration order (same, reversed, interleaved): lox numbers
+// modes by name. This is about scale (two-digit mode numbers).
+func c07ManyModes() []*lexref.Spec {
+	var out []*lexref.Spec
+	for _, k := range []int{4, 10, 11, 12, 13} {
+		for scheme := 0; scheme < 3; scheme++ {
+			name := func(i int) string { // i in 1..k-1
+				switch scheme {
+				case 1:
+					return fmt.Sprintf("M%02d", k-i)
+				case 2:
+					return fmt.Sprintf("M%c%d", 'a'+(i*7)%5, i)
+				}
+				return fmt.Sprintf("M%02d", i)
+			}
+			s := &lexref.Spec{Modes: []lexref.Mode{{}}}
+			for i := 1; i < k; i++ {
+				s.Modes[0].Rules = append(s.Modes[0].Rules, lexref.Rule{K: lexref.RToken, Name: fmt.Sprintf("P%d", i), Rx: lexref.Lit(string(rune('a' + i))),
+					Actions: []lexref.Action{{K: lexref.APush, Arg: name(i)}}})
+			}
+			s.Modes[0].Rules = append(s.Modes[0].Rules, lexref.Rule{K: lexref.RToken, Name: "EM", Rx: lexref.Lit("z")})
+			for i := 1; i < k; i++ {
+				m := lexref.Mode{Name: name(i)}
+				m.Rules = append(m.Rules, lexref.Rule{K: lexref.RToken, Name: fmt.Sprintf("T%d", i), Rx: lexref.Lit("a")})
+				m.Rules = append(m.Rules, lexref.Rule{K: lexref.RFrag, Rx: lexref.Lit("n"), Actions: []lexref.Action{{K: lexref.APush, Arg: name(i%(k-1) + 1)}, {K: lexref.ADiscard}}})
+				m.Rules = append(m.Rules, lexref.Rule{K: lexref.RFrag, Rx: lexref.Lit("z"), Actions: []lexref.Action{{K: lexref.APop}, {K: lexref.ADiscard}}})
+				s.Modes = append(s.Modes, m)
+			}
+			out = append(out, s)
+		}
+	}
+	return out
+}
+
 var c07Symbols = [][]byte{[]byte("a"), []byte("b"), []byte("c"), []byte("z")}
 
 func c07One(ws *pipe.Workspace, fam string, idx int64, s *lexref.Spec, depth, L int, st *mc.Stats) []mc.Violation {
@@ -217,6 +254,15 @@ func c07Worker(c *mc.Ctx) {
 	if c.Quick() {
 		depth, L = 3, 5
 	}
+	for i, s := range c07ManyModes() {
+		if !c.Mine(int64(i)) {
+			continue
+		}
+		// strings through the driver stay short here: the alphabet is large
+		for _, v := range c07One(ws, "many-modes", int64(i), s, depth, 2, &c.Stats) {
+			c.Stats.Violate(v)
+		}
+	}
 	for _, fam := range c07Spaces(c.Quick()) {
 		n := fam.sp.Size()
 		if fam.limit > 0 && fam.limit < n {
@@ -257,7 +303,7 @@ func init() {
 	mc.Register(&mc.Check{
 		ID:    "C07",
 		Level: "model_checking",
-		Rule: "mode graphs: 2-3 modes, 1-2 literal rules per mode; every rule is written in every way from {token, accumulating fragment, @discard fragment, @emit fragment} x {no mode action, @push_mode(each mode incl. the default), @pop_mode} x every order of the written actions (thorough: also two mode actions on one rule); " +
+		Rule: "mode graphs: 2-3 modes, 1-2 literal rules per mode; every rule is written in every way from {token, accumulating fragment, @discard fragment, @emit fragment} x {no mode action, @push_mode(each mode incl. the default), @pop_mode} x every order of the written actions (thorough: also two mode actions on one rule); plus specifications with 4 and 10-13 modes (two-digit mode numbers) under three orders of mode names relative to declaration order; " +
 			"each: BFS of the product (real state machine) x (reference mode-stack machine), mode stack bounded by depth D (deeper pushes close the branch and are counted), plus all strings up to L over the pattern characters through the real driver (token texts include accumulated fragment text); non-trivial = spec with > 2 product states",
 		Assume: []string{"reference: internal/lx RefM (documented stack discipline; every written action takes effect; several mode actions on one rule execute in written order)", "nothing is compared after an unmatched @pop_mode or the first error"},
 		Worker: c07Worker,
